@@ -108,7 +108,7 @@ def run(ctx):
         ctx.log(out[-2000:])
         return
     replay = bool(ctx.replay_file)
-    nprog = 0 if replay else (60 if ctx.tier == "quick" else 1500)
+    nprog = 0 if replay else (60 if ctx.tier == "quick" else 800)
     dumps_per_run = 3 if ctx.tier == "quick" else 2
     profiles = ["dev"] if ctx.tier == "quick" else ["dev", "release"]
     cfile, cnames = corpus_file(ctx)
@@ -207,7 +207,7 @@ def run(ctx):
             cases.append((d["q"], d["obs"]))
             meta.append(d)
         tot_dumps += len(cases)
-        fails, err = vlib.coq_eval_cases("c03", IMPORTS, "gc_obs", "obs_eqb", cases, shard=60)
+        fails, err = vlib.coq_eval_cases("c03", IMPORTS, "gc_obs", "obs_eqb", cases, shard=60, timeout=2400)
         if err:
             ctx.broken.append("correspondence C03: model evaluation failed")
             ctx.log(err[-3000:])
